@@ -300,9 +300,9 @@ class Interp:
         if f is None or '__yielded__' not in f.locals:
             raise Unsupported('yield outside a modelled generator')
         f.locals['__yielded__'].append(v)
-        hook = f.locals.get('__on_yield__')
+        hook = self.run.ghost.get('on_yield')
         if hook is not None:
-            hook(v)
+            hook(self, v, n)
         return None
 
     # ------------------------------------------------------------------ operations
@@ -419,6 +419,9 @@ class Interp:
             return r if isinstance(op, ast.Is) else not r
         if isinstance(a, OptInt) or isinstance(b, OptInt):
             a, b = self.opt_unwrap(a, node), self.opt_unwrap(b, node)
+        if isinstance(op, (ast.Is, ast.IsNot)) and (hasattr(a, 'is_') or hasattr(b, 'is_')):
+            r = a.is_(b) if hasattr(a, 'is_') else b.is_(a)
+            return r if isinstance(op, ast.Is) else Not(r)
         if isinstance(op, (ast.Is, ast.IsNot)):
             if a is None or b is None or isinstance(a, bool) or isinstance(b, bool):
                 r = a is b
